@@ -11,10 +11,11 @@ tables (`Generated.Tables`, re-extracted from the repository under test on every
    recogniser without tree or indices: tag letters and their braces removed, `E{}`/`S{}` decoded,
    link targets dropped; nothing else changed, in order.
 2. `Epytext.literal_block_exact`, `Epytext.doctest_block_exact` — block slicing.
-3. `Doctest.splice_conserves`, `Doctest.doctest_body_text`, `…_conserves_partial`, `…_counterexample`.
+3. `Doctest.splice_conserves`, `Doctest.doctest_body_text`, `Doctest.doctest_body_conserves` (full, since
+   pydoctor a0449ac), `Doctest.doctest_body_old_counterexample` (the code before that fix).
 4. `Epytext.plaintext_exact`.
-5. `Docstring.every_tag_rendered_or_reported_partial` / `_counterexample` / `dropped_iff…` over the
-   generated handler table.
+5. `Docstring.kept_iff_in_scope`, `every_tag_rendered_or_reported_partial` / `_counterexample` (only `type`
+   fields naming no known variable remain excluded, since pydoctor 513af36) over the generated handler table.
 -/
 import PdModel.Epytext
 import PdModel.EpytextIO
@@ -823,8 +824,9 @@ theorem splice_conserves_whole (P : Params) (s : List Char) (ms : List Match) (p
     (h : codeblockBody P s ms 0 = .ok ps) : textOf ps = s := by
   simpa using splice_conserves P s ms 0 ps hsp hok h
 
-/-- what is displayed for an expected-output group: `want.rstrip()` line by line, each followed by a newline -/
-def wantText (want : List Char) : List Char := if want.isEmpty then [] else rstrip want ++ ['\n']
+/-- what is displayed for an expected-output group: the group without its final newline, line by line,
+each line followed by a newline -/
+def wantText (want : List Char) : List Char := if want.isEmpty then [] else dropFinalNewline want ++ ['\n']
 
 theorem splitNL_lines (x : List Char) :
     ((splitNL x).map (fun l => l ++ ['\n'])).flatten = x ++ ['\n'] := by
@@ -846,18 +848,21 @@ theorem splitNL_lines (x : List Char) :
         rw [List.cons_append, List.cons_append, ih]
         rfl
 
+theorem flatMap_lines_text (cls : Cls) (ls : List Line) :
+    textOf (ls.flatMap fun line => [Piece.span cls line, Piece.raw ['\n']]) =
+      (ls.map (fun l => l ++ ['\n'])).flatten := by
+  induction ls with
+  | nil => rfl
+  | cons l ls ih =>
+    simp only [List.flatMap_cons, textOf_append, ih, List.map_cons, List.flatten_cons]
+    simp [textOf, Piece.text]
+
 theorem wantPieces_text (exc : Bool) (want : List Char) : textOf (wantPieces exc want) = wantText want := by
   unfold wantPieces wantText
   by_cases h : want.isEmpty = true
   · simp [h, textOf]
   · simp only [h, Bool.false_eq_true, if_false]
-    rw [← splitNL_lines (rstrip want)]
-    generalize splitNL (rstrip want) = ls
-    induction ls with
-    | nil => rfl
-    | cons l ls ih =>
-      simp only [List.flatMap_cons, textOf_append, ih, List.map_cons, List.flatten_cons]
-      simp [textOf, Piece.text]
+    rw [flatMap_lines_text, splitNL_lines]
 
 /-- spans of `DOCTEST_EXAMPLE_RE.finditer`: increasing, `source` then `want` inside each match; the
 inner `DOCTEST_RE` matches satisfy `Spans` and the regex contracts -/
@@ -875,8 +880,8 @@ def shownText (s : List Char) : List Example → Nat → List Char
   | ex :: exs, idx =>
     slice s idx ex.start ++ slice s ex.start ex.srcEnd ++ wantText (slice s ex.srcEnd ex.stop) ++ shownText s exs ex.stop
 
-/-- **C09, doctest blocks**: exact description of the displayed text — the input, except that every
-non-empty expected-output group is replaced by `want.rstrip() + '\n'` -/
+/-- exact description of the displayed text: the input, with every non-empty expected-output group
+written as (group without final newline) + newline -/
 theorem doctest_body_text (P : Params) (s : List Char) : ∀ (exs : List Example) (idx : Nat) (ps : List Piece),
     Examples P s exs idx → doctestBody P s exs idx = .ok ps → textOf ps = shownText s exs idx := by
   intro exs
@@ -902,22 +907,28 @@ theorem doctest_body_text (P : Params) (s : List Char) : ∀ (exs : List Example
         have h2 := ih ex.stop rest hrest hr
         simp only [textOf_cons, textOf_append, Piece.text, h1, h2, wantPieces_text, shownText, List.append_assoc]
 
-/-- an expected-output group that `want.rstrip()` leaves intact -/
-def WantOk (want : List Char) : Prop := want = [] ∨ want = rstrip want ++ ['\n']
+/-- an expected-output group that ends with its newline (or is empty) -/
+def NLTerminated (want : List Char) : Prop := want = [] ∨ want.getLast? = some '\n'
 
-theorem wantText_of_ok {want : List Char} (h : WantOk want) : wantText want = want := by
+theorem wantText_terminated {want : List Char} (h : NLTerminated want) : wantText want = want := by
   unfold wantText
   rcases h with h | h
   · subst h; rfl
-  · have : want.isEmpty = false := by
-      cases want with
-      | nil => simp at h
-      | cons a as => rfl
-    simp only [this, Bool.false_eq_true, if_false]
-    exact h.symm
+  · obtain ⟨w, rfl⟩ := List.getLast?_eq_some_iff.mp h
+    simp [dropFinalNewline]
 
-theorem shownText_of_ok (P : Params) (s : List Char) : ∀ (exs : List Example) (idx : Nat),
-    Examples P s exs idx → (∀ ex ∈ exs, WantOk (slice s ex.srcEnd ex.stop)) → shownText s exs idx = s.drop idx := by
+theorem wantText_cases (want : List Char) : wantText want = want ∨ wantText want = want ++ ['\n'] := by
+  by_cases h : NLTerminated want
+  · exact Or.inl (wantText_terminated h)
+  · right
+    unfold wantText
+    have h1 : want ≠ [] := fun e => h (Or.inl e)
+    have h2 : want.getLast? ≠ some '\n' := fun e => h (Or.inr e)
+    have : want.isEmpty = false := by cases want <;> simp_all
+    simp [this, dropFinalNewline, h2]
+
+theorem shownText_exact (P : Params) (s : List Char) : ∀ (exs : List Example) (idx : Nat),
+    Examples P s exs idx → (∀ ex ∈ exs, NLTerminated (slice s ex.srcEnd ex.stop)) → shownText s exs idx = s.drop idx := by
   intro exs
   induction exs with
   | nil => intro idx _ _; rfl
@@ -925,41 +936,85 @@ theorem shownText_of_ok (P : Params) (s : List Char) : ∀ (exs : List Example) 
     intro idx hex hw
     obtain ⟨h1, h2, h3, _, _, hrest⟩ := hex
     simp only [shownText]
-    rw [wantText_of_ok (hw ex (by simp)), ih ex.stop hrest (fun x hx => hw x (by simp [hx]))]
+    rw [wantText_terminated (hw ex (by simp)), ih ex.stop hrest (fun x hx => hw x (by simp [hx]))]
     rw [List.append_assoc, List.append_assoc, slice_append_drop s h3, slice_append_drop s h2, slice_append_drop s h1]
 
-/-
-Full statement — FALSE of the current code:
+/-- the contract of `DOCTEST_EXAMPLE_RE` (`.*$\n?` per line): an expected-output group lacks its final
+newline only when it is the last one and reaches the end of the string -/
+def Terminated (s : List Char) : List Example → Prop
+  | [] => True
+  | ex :: exs =>
+    (NLTerminated (slice s ex.srcEnd ex.stop) ∧ Terminated s exs) ∨ (exs = [] ∧ s.length ≤ ex.stop)
 
-  theorem doctest_body_conserves : Examples P s exs 0 → doctestBody P s exs 0 = .ok ps → textOf ps = s
+theorem shownText_eof (P : Params) (s : List Char) : ∀ (exs : List Example) (idx : Nat),
+    Examples P s exs idx → Terminated s exs →
+    shownText s exs idx = s.drop idx ∨ shownText s exs idx = s.drop idx ++ ['\n'] := by
+  intro exs
+  induction exs with
+  | nil => intro idx _ _; exact Or.inl rfl
+  | cons ex exs ih =>
+    intro idx hex ht
+    obtain ⟨h1, h2, h3, _, _, hrest⟩ := hex
+    simp only [shownText]
+    have hpre : ∀ tail : List Char, slice s idx ex.start ++ slice s ex.start ex.srcEnd ++ slice s ex.srcEnd ex.stop ++
+        (s.drop ex.stop ++ tail) = s.drop idx ++ tail := by
+      intro tail
+      rw [← List.append_assoc _ (s.drop ex.stop) tail]
+      congr 1
+      rw [List.append_assoc, List.append_assoc, slice_append_drop s h3, slice_append_drop s h2, slice_append_drop s h1]
+    rcases ht with ⟨hnl, ht'⟩ | ⟨hnil, hlen⟩
+    · rw [wantText_terminated hnl]
+      rcases ih ex.stop hrest ht' with h | h
+      · left; rw [h]; simpa using hpre []
+      · right; rw [h]; exact hpre ['\n']
+    · subst hnil
+      have hdrop : s.drop ex.stop = [] := List.drop_eq_nil_iff.mpr hlen
+      simp only [shownText, hdrop, List.append_nil]
+      have hbase := hpre []
+      simp only [hdrop, List.append_nil] at hbase
+      rcases wantText_cases (slice s ex.srcEnd ex.stop) with h | h
+      · left; rw [h, hbase]
+      · right; rw [h, ← List.append_assoc, hbase]
 
-`want.rstrip()` removes the white space that ends the last expected-output line of every example
-(and a missing final newline is added).
--/
+/-- **C09, doctest blocks** (pydoctor a0449ac and later; no hypothesis about white space): for the spans
+the regexes produce, the displayed doctest block is the input character for character — every
+blank that ends a line of expected output included — or the input followed by one newline when the
+input ends inside an expected output. -/
+theorem doctest_body_conserves (P : Params) (s : List Char) (exs : List Example) (ps : List Piece)
+    (hex : Examples P s exs 0) (ht : Terminated s exs)
+    (h : doctestBody P s exs 0 = .ok ps) : textOf ps = s ∨ textOf ps = s ++ ['\n'] := by
+  rw [doctest_body_text P s exs 0 ps hex h]
+  simpa using shownText_eof P s exs 0 hex ht
 
-/-- **partial**: when every expected-output group is empty or ends with exactly one newline and has no
-other trailing white space, the doctest block is reproduced character for character -/
-theorem doctest_body_conserves_partial (P : Params) (s : List Char) (exs : List Example) (ps : List Piece)
-    (hex : Examples P s exs 0) (hw : ∀ ex ∈ exs, WantOk (slice s ex.srcEnd ex.stop))
+/-- … and exactly the input when every expected-output group ends with its newline -/
+theorem doctest_body_conserves_exact (P : Params) (s : List Char) (exs : List Example) (ps : List Piece)
+    (hex : Examples P s exs 0) (hw : ∀ ex ∈ exs, NLTerminated (slice s ex.srcEnd ex.stop))
     (h : doctestBody P s exs 0 = .ok ps) : textOf ps = s := by
-  rw [doctest_body_text P s exs 0 ps hex h, shownText_of_ok P s exs 0 hex hw]
+  rw [doctest_body_text P s exs 0 ps hex h, shownText_exact P s exs 0 hex hw]
   rfl
 
 def cexText : List Char := ">>> 1\n1  \n".toList
 def cexExamples : List Example := [⟨0, 6, 10, [⟨0, 4, .prompt1⟩, ⟨6, 6, .eos⟩], false⟩]
 
-/-- **counterexample** (`>>> 1` with expected output `1␣␣`): the spans are well formed, the splice
-succeeds, and the displayed text is not the input — the two blanks are gone -/
-theorem doctest_body_conserves_counterexample :
+/-- non-vacuity, and the fix: `>>> 1` with expected output `1␣␣` is reproduced with its two blanks -/
+example :
     (match doctestBody reParams cexText cexExamples 0 with
-     | .ok ps => textOf ps == ">>> 1\n1\n".toList && textOf ps != cexText
+     | .ok ps => textOf ps == cexText
      | .error _ => false) = true := by
   decide
 
-/-- non-vacuity of the partial theorem: the same example without the trailing blanks is reproduced -/
+/-- the one remaining deviation: input that ends inside an expected output gains a final newline -/
 example :
-    (match doctestBody reParams ">>> 1\n1\n".toList [⟨0, 6, 8, [⟨0, 4, .prompt1⟩, ⟨6, 6, .eos⟩], false⟩] 0 with
-     | .ok ps => textOf ps == ">>> 1\n1\n".toList
+    (match doctestBody reParams ">>> 1\n1  ".toList [⟨0, 6, 9, [⟨0, 4, .prompt1⟩, ⟨6, 6, .eos⟩], false⟩] 0 with
+     | .ok ps => textOf ps == ">>> 1\n1  \n".toList
+     | .error _ => false) = true := by
+  decide
+
+/-- **historical counterexample** (the code before a0449ac, `want.rstrip()`, transcribed as
+`doctestBodyOld`): on the same input the two blanks were dropped -/
+theorem doctest_body_old_counterexample :
+    (match doctestBodyOld reParams cexText cexExamples 0 with
+     | .ok ps => textOf ps == ">>> 1\n1\n".toList && textOf ps != cexText
      | .error _ => false) = true := by
   decide
 
@@ -1001,24 +1056,22 @@ theorem shapes_complete (s : Shape) : s ∈ shapes := by
   obtain ⟨a, b, c⟩ := s
   cases a <;> cases b <;> cases c <;> decide
 
-/-- the inputs on which today's code keeps the field:
-* a field whose handler is `handled_elsewhere` (`ivar`, `cvar`, `var`) stands in a module or class
-  docstring (only those go through `extract_fields`);
-* a `type` field with a name in a module or class docstring names a variable that is assigned in
-  the body or documented by `ivar`/`cvar`/`var` (otherwise `extract_fields` creates an `Attribute`
-  without kind, which is not displayed — e.g. the type of a constructor parameter documented on the class). -/
-def inScope (tag fn : String) (k : ObjKind) (s : Shape) : Bool :=
-  (fn != "handled_elsewhere" || k == .module || k == .cls) &&
-  (!(tag == "type" && (k == .module || k == .cls) && s.hasArg) || s.attrKnown)
+/-- the inputs on which today's code keeps the field: a `type` field with a name in a module or class
+docstring must name a variable that is assigned in the body or documented by `ivar`/`cvar`/`var`
+(otherwise `extract_fields` creates an `Attribute` without kind, which is not displayed — e.g. the
+type of a constructor parameter documented on the class).  Since 513af36 nothing else is excluded:
+`ivar`/`cvar`/`var` outside a module or class docstring are reported. -/
+def inScope (tag : String) (k : ObjKind) (s : Shape) : Bool :=
+  !(tag == "type" && (k == .module || k == .cls) && s.hasArg) || s.attrKnown
 
 theorem table_check :
     allHandlers.all (fun p => kinds.all fun k => shapes.all fun s =>
-      (outcome p.1 p.2 k s).kept == inScope p.1 p.2 k s) = true := by
+      (outcome p.1 p.2 k s).kept == inScope p.1 k s) = true := by
   decide +kernel
 
 /-- exactly the fields outside `inScope` are lost -/
 theorem kept_iff_in_scope (tag fn : String) (h : (tag, fn) ∈ allHandlers) (k : ObjKind) (s : Shape) :
-    (outcome tag fn k s).kept = inScope tag fn k s := by
+    (outcome tag fn k s).kept = inScope tag k s := by
   have := table_check
   rw [List.all_eq_true] at this
   have := this (tag, fn) h
@@ -1037,24 +1090,28 @@ Full statement — FALSE of the current code:
 /-- **partial**: every field tag of the live table, in every kind of docstring and every shape of field,
 is displayed under a heading, handed to a displayed attribute, or reported — under `inScope` -/
 theorem every_tag_rendered_or_reported_partial (tag fn : String) (h : (tag, fn) ∈ allHandlers)
-    (k : ObjKind) (s : Shape) (hs : inScope tag fn k s = true) : (outcome tag fn k s).kept = true := by
+    (k : ObjKind) (s : Shape) (hs : inScope tag k s = true) : (outcome tag fn k s).kept = true := by
   rw [kept_iff_in_scope tag fn h k s, hs]
 
-/-- **counterexamples**: `@ivar x: …` in a function docstring, and `@type a: …` in a class docstring for a
-name that is not a documented variable, are in the table and are dropped: no heading, no displayed
-attribute, no report -/
+/-- every tag but `type` is kept unconditionally -/
+theorem every_tag_but_type_rendered_or_reported (tag fn : String) (h : (tag, fn) ∈ allHandlers) (ht : tag ≠ "type")
+    (k : ObjKind) (s : Shape) : (outcome tag fn k s).kept = true := by
+  apply every_tag_rendered_or_reported_partial tag fn h k s
+  simp [inScope, ht]
+
+/-- **counterexample**: `@type a: …` in a class docstring for a name that is not a documented variable is in
+the table and is dropped: no heading, no displayed attribute, no report -/
 theorem every_tag_rendered_or_reported_counterexample :
-    (("ivar", "handled_elsewhere") ∈ allHandlers ∧
-      (outcome "ivar" "handled_elsewhere" .function ⟨true, false, false⟩).kept = false) ∧
-    (("type", "handle_type") ∈ allHandlers ∧
-      (outcome "type" "handle_type" .cls ⟨true, true, false⟩).kept = false) := by
+    ("type", "handle_type") ∈ allHandlers ∧
+      (outcome "type" "handle_type" .cls ⟨true, true, false⟩).kept = false := by
   decide +kernel
 
-/-- non-vacuity: the same fields where they are in scope -/
+/-- non-vacuity: the same field where it is in scope; `@ivar` in a function docstring is reported (513af36) -/
 example :
-    (outcome "ivar" "handled_elsewhere" .cls ⟨true, false, false⟩).kept = true ∧
     (outcome "type" "handle_type" .cls ⟨true, false, true⟩).kept = true ∧
-    (outcome "type" "handle_type" .function ⟨true, true, false⟩).heading = some "Parameters" := by
+    (outcome "type" "handle_type" .function ⟨true, true, false⟩).heading = some "Parameters" ∧
+    (outcome "ivar" "handled_elsewhere" .function ⟨true, false, false⟩).reported = true ∧
+    (outcome "ivar" "handled_elsewhere" .cls ⟨true, false, false⟩).attrShown = true := by
   decide +kernel
 
 /-- every handler function of the live table is one the model knows -/
